@@ -169,6 +169,37 @@ def build(ctx):
             ctx.prop('format/n%d/p%d/exit-status-formula' % (nfiles, i), o.state.pc + [ok],
                      z3.Not(z3.And(z3.Or(code.e == 0, code.e == 1), (code.e == 1) == want1)), list(errs.items) + [p['check']], replay_cli(ctx, 'exit'))
 
+    # B'. the same formula for standard input (format_string)
+    KF_STDIN = 'C06/format_string/--check-on-standard-input-ignores-the-diff'
+    paths, info = binmodel.run_format_string_fn(ctx, both)
+    ctx.paths += len(paths)
+    log('[C06] format_string(): %d paths' % len(paths))
+    nfer = 0
+    for i, p in enumerate(paths):
+        o = p['outcome']
+        if o.kind != 'ret':
+            continue
+        v = o.value
+        if 0 not in v.payloads:
+            continue
+        code = v.payloads[0].items[0]
+        ok = v.discr == 0
+        sess = [s_ for s_ in binmodel.final_session(both, o.state, info)]
+        if len(sess) != 1 or not p['fer']:
+            ctx.prop('format_string/p%d/no-formatting=>error-return' % i, o.state.pc, ok, [], replay_cli(ctx, 'stdin'), twin=False)
+            continue
+        nfer += 1
+        errs = o.state.notes.get(('lazy', sess[0].ident, info['err_idx']))
+        if not isinstance(errs, Tup):
+            raise Inconclusive('session.errors not tracked in format_string')
+        fl = dict(zip(info['flags'], errs.items))
+        want1 = z3.Or(fl['has_operational_errors'], fl['has_parsing_errors'], z3.And(z3.Or(fl['has_diff'], fl['has_check_errors']), p['check']))
+        cls = [(KF_STDIN, z3.And(p['check'], z3.Or(fl['has_diff'], fl['has_check_errors']), z3.Not(fl['has_operational_errors']), z3.Not(fl['has_parsing_errors'])))]
+        ctx.prop('format_string/p%d/exit-status-formula' % i, o.state.pc + [ok],
+                 z3.Not(z3.And(z3.Or(code.e == 0, code.e == 1), (code.e == 1) == want1)), list(errs.items) + [p['check']], replay_cli(ctx, 'stdin'), classes=cls)
+    if nfer == 0:
+        raise Inconclusive('format_string: no path formats the input')
+
     # E. apply_to: --check forces EmitMode::Diff whatever else is given
     both.inline_only = [re.compile(r'src/bin/main\.rs'), re.compile(r'src/config/config_type\.rs'), re.compile(r'GetOptsOptions::'), re.compile(r'^Config'),
                         re.compile(r'ConfigSetter'), re.compile(r'src/config/file_lines\.rs'), re.compile(r'FileLines::')]
@@ -347,8 +378,32 @@ def cli_matrix():
     return findings, inline
 
 
+def stdin_matrix():
+    """--check on standard input: exit 1 exactly when the text would be changed"""
+    bins = ensure_bins()
+    rf = os.path.join(bins, 'rustfmt')
+    out = []
+    for text, want in (('fn   main( ) { }\n', 1), ('fn main() {}\n', 0), ('fn main() {\n    let   x=1;\n}\n', 1)):
+        r = subprocess.run([rf, '--check'], input=text, capture_output=True, text=True, env=run_env(), timeout=60)
+        if r.returncode != want:
+            out.append('--check on standard input %r: exit %d, expected %d (a diff was %sprinted)' % (text[:20], r.returncode, want, '' if r.stdout.strip() else 'not '))
+    for mode in ('stdout', 'json', 'checkstyle'):
+        r = subprocess.run([rf, '--emit', mode], input='fn   main( ) { }\n', capture_output=True, text=True, env=run_env(), timeout=60)
+        if r.returncode != 0:
+            out.append('--emit %s on standard input exits %d' % (mode, r.returncode))
+    return out
+
+
 def replay_cli(ctx, what):
     def replay(model, r):
+        if what == 'stdin':
+            f = stdin_matrix()
+            key = r.ob.meta.get('key')
+            chk = [x for x in f if x.startswith('--check')]
+            if key:
+                return {'reproduced': bool(chk), 'detail': chk[:3]}
+            other = [x for x in f if not x.startswith('--check')] if 'C06/format_string/--check-on-standard-input-ignores-the-diff' in ctx.open_keys else f
+            return {'reproduced': bool(other), 'detail': other[:3]}
         findings, inline = cli_matrix()
         if what == 'check-inline':
             return {'reproduced': inline is not None, 'detail': inline}
